@@ -509,3 +509,11 @@ for _pid in ("C08", "C09"):
 SPECS["C15"]["contracts"].append("lemma:pipeline_block[1x1,w=2,cut]")
 SPECS["C15"]["level_text"] += ("; the stereo pipeline over truncated streams (lemma:pipeline_block[1x1,w=2,cut]): a failing read ends the data, and every block that IS returned is a complete "
                                "block with each channel in its place - never the channels read so far")
+SPECS["C20"]["contracts"] += ["smpl_extract.akai.program:_has_next_keygroup", "smpl_extract.akai.program:_has_valid_first_keygroup", "smpl_extract.akai.program:ProgramAdapter._decode_element"]
+SPECS["C20"]["level_text"] += ("; AKAI programs: the keygroup chain is followed from keygroup i to its stored next address exactly when i is not the last and an address is stored; "
+                               "ProgramAdapter._decode_element carries all 47 header parameters and the decoded keygroup list on unchanged")
+SPECS["C20"]["not_covered"] = ["PaddedGeneral / SlicingGeneral / KeygroupAdapter (zone filtering and the per-zone arrays) as contracts", "the 300-line cap (truncated listings are skipped)"]
+SPECS["C20"]["contracts"] += [f"smpl_extract.akai.keygroup:KeygroupAdapter._decode[zones={z}]" for z in (0, 1, 2, 4)]
+SPECS["C20"]["level_text"] += ("; KeygroupAdapter._decode (0, 1, 2, 4 listed zones): every keygroup parameter as stored, the zones in stored order with their sample name and velocity range, "
+                               "zone i paired with entry i of the three per-zone arrays, ConstructError exactly when an array length disagrees with the zone count")
+SPECS["C20"]["not_covered"] = ["PaddedGeneral / SlicingGeneral (which slots count as non-empty, how the per-zone arrays are sliced) as contracts", "the 300-line cap (truncated listings are skipped)"]
